@@ -7,6 +7,13 @@ ROOT = os.path.dirname(os.path.dirname(os.path.abspath(__file__)))
 ALL = ["C%02d" % i for i in range(1, 20)]
 
 CHECKS = {
+    "C17": {
+        "spec": "specs/LineProtocol.tla + LineProtocolTrace.tla, specs/JsonMerge.tla + JsonMergeTrace.tla",
+        "text": "LineProtocol.tla contains a transcription of the encoder and an independent reference decoder written from the InfluxDB grammar; TLC enumerates records over an 8-class alphabet (every character special to the protocol) in every string position, all value kinds, whitelist/default/override configurations and time/resolution pairs, checks Parse(Format(r)) = r on the model and emits every record; each record (and random longer ones) is formatted by the real LineProtocolFormatter through a LogRecord (every second time after an earlier record on the same formatter) and TLC applies the reference decoder to the observed text. JsonMerge.tla does the same for the JSON formatter's merge order over colliding key sets.",
+        "note": "character classes instead of all of Unicode; strings <= 3 (thorough 4) exhaustively per position, <= 8 at random; numbers compared by value; nanoseconds checked as seconds + nine zeros; inputs the protocol cannot express are excluded as the property says.",
+        "design": "5/C17, 4.13",
+        "technique": "TLA+ model checking (TLC) with a reference decoder in the spec + TLC-enumerated inputs formatted by the real code + trace validation",
+    },
     "C16": {
         "spec": "specs/Decorators.tla + DecoratorsTrace.tla",
         "text": "Decorators.tla models a stack of PoolDecorator / Logger / Standardiser / Buffer layers: a demand write travels top-down (each Logger reads its target, emits one record, forwards), reads have the Standardiser's resynchronisation side effect. TLC checks transparency and record formulas over all stacks of depth <= 3 (thorough 4) and all histories to a bounded depth, generates behaviours by simulation, and validates traces of real stacks with capturing handlers (record fields at emission, target state before the write, fields re-read after the write, logger name and level, pool write counts, template validation).",
